@@ -366,6 +366,11 @@ class World(object):
                 for v in values:
                     g = ix.get((v,) + col, force=True)
                     gets[(v,) + col] = None if g is None else np.asarray(g).tolist()
+                    d1 = ix.get((v,) + col, "absent", force=True)
+                    d2 = ix.get((v,) + col, default="absent")
+                    if (g is None) != (isinstance(d1, str)) or (v != ix.common and (g is None) != isinstance(d2, str)):
+                        self.fail("C06", "get(%r, default) does not return the default exactly when the key has no rows"
+                                  % ((v,) + col,), "get default")
             crs = {col: ix.common_rowids(*col) for col in cols}
         if snapshot_index(ix) != snap:
             self.fail("C06", "an observer (get/items/to_dict/common_rowids) modified the index",
